@@ -120,10 +120,14 @@ func (c10) Run(t *tape.Tape, st *Stats) *Violation {
 	dstOpaque := t.Chance(1, 5)
 	par := parallelismOf(t, rect.Dy())
 	sc, scDesc := DrawSchedule(t, [4]int{2, 3, 3, 4})
-	pre := drawEarlier(t, srcKind, rect)
+	pre := drawEarlier(t, srcKind, rect, src)
 	var preDst *Img
 	if pre.On {
 		preDst = makeImg(t, dst.Kind, image.Rectangle{Min: dst.Rect.Min, Max: dst.Rect.Min.Add(pre.Img.Rect.Size())}, t.Bool())
+		simrt.ResetSteps(2000000)
+		pre.run(func() { tr.image(preDst.View.(draw.Image), pre.Img.View, pre.Par) })
+		simrt.ResetSteps(0)
+		pre.mutate()
 	}
 
 	// reference model, computed before the run from a snapshot
@@ -147,8 +151,6 @@ func (c10) Run(t *tape.Tape, st *Stats) *Violation {
 	}
 	simrt.ResetSteps(2000000) // a run of this size takes a few thousand steps; beyond the budget it is a livelock
 	defer simrt.ResetSteps(0)
-	pre.run(func() { tr.image(preDst.View.(draw.Image), pre.Img.View, pre.Par) })
-	simrt.ResetSteps(2000000)
 	racesBefore := simrt.RaceErrors()
 	var panicked interface{}
 	var atReturn [][]uint8
